@@ -88,10 +88,14 @@ Fixpoint shift (n : nat) (tk l : list N) : option (list N * list N) :=
 (* `Bytes::new` *)
 Definition cur_new (buf : list N) : cur := mkcur 0 [] buf.
 
-(* `pos()` for a cursor whose `start` is still the buffer start; in general the
-   absolute offset of the cursor inside the caller's buffer *)
+(* the absolute offset of the cursor inside the caller's buffer *)
 Definition apos (c : cur) : nat := length (tokrev c) + pre c.
-Definition pos : P nat := fun c => Done (apos c) c.
+(* `pos()`: `cursor - start`, the length of the uncommitted token (NOT the absolute offset once
+   something has been committed by slice()) *)
+Definition pos : P nat := fun c => Done (length (tokrev c)) c.
+(* `as_ref().as_ptr() as usize`: the address of the cursor, as an offset from the buffer's base
+   address (lib.rs only ever subtracts two of them) *)
+Definition addr : P nat := fun c => Done (apos c) c.
 
 (* `peek()` *)
 Definition peek : P (option N) := fun c => Done (hd_error (rest c)) c.
